@@ -6,6 +6,9 @@ CHECK = {
         T("schedsim", "TestC06TimeoutsWakeupsNoLeaks",
           {"checks": 1500, "shards": 4, "timeout": 600},
           {"checks": 25000, "shards": 16, "timeout": 3000}),
+        T("schedsim", "TestC06RetryAndRedelivery",
+          {"checks": 1500, "shards": 2, "timeout": 600},
+          {"checks": 25000, "shards": 8, "timeout": 3000}),
         T("schedsim", "TestC06Regress.*",
           {"checks": 1, "shards": 1, "timeout": 120},
           {"checks": 1, "shards": 1, "timeout": 120}, plain=True),
